@@ -101,10 +101,24 @@ def run(tier):
     record("ReadoutTrace accepts the top half of rows 1,3,5 by probability", not _rejected(_tlc_trace("ReadoutTrace", [ro])))
     record("ReadoutTrace reports a row outside the requested top fraction", _rejected(_tlc_trace("ReadoutTrace", [dict(ro, ids=[1, 5], pids=[1, 5])])))
     record("ReadoutTrace reports a probability belonging to another row", _rejected(_tlc_trace("ReadoutTrace", [dict(ro, pids=[3, 1])])))
-    hd = {"s": [0, 4, 7, 9, 10, 11], "k": 8, "r": [7, 11], "same": [[7, 11]], "rp": [7, 11], "ra": [14, 22], "a": 2, "b": 0, "unchanged": True, "rf": [7, 11], "ric": [[7, 11]]}
+    hd = {"s": [0, 4, 7, 9, 10, 11], "k": 8, "r": [7, 11], "same": [[7, 11]], "rp": [7, 11], "ra": [14, 22], "a": 2, "b": 0, "unchanged": True, "rf": [7, 11], "ric": [[7, 11]],
+          "gs": [0, 536870896, 939524047, 1207959471, 1342177180, 1476394887], "rg": [1207959471, 1476394887]}                                                    # the sample under g(v) = 2^27 v - v^2
     record("HdiTrace accepts the shortest interval", not _rejected(_tlc_trace("HdiTrace", [hd])))
     record("HdiTrace reports a longer interval with the same count", _rejected(_tlc_trace("HdiTrace", [dict(hd, r=[4, 10], same=[[4, 10]], rp=[4, 10], ra=[8, 20])])))
     record("HdiTrace reports a modified caller array", _rejected(_tlc_trace("HdiTrace", [dict(hd, unchanged=False)])))
+    # four equally spaced values under the concave map: the three windows of two points have widths 2^27 - 1, - 3, - 5 (equal to 7 digits)
+    hq = {"s": [0, 1, 2, 3], "k": 8, "r": [0, 1], "same": [[0, 1]], "rp": [0, 1], "ra": [0, 2], "a": 2, "b": 0, "unchanged": True, "rf": [0, 1],
+          "ric": [[0, 1]], "gs": [0, 2 ** 27 - 1, 2 ** 28 - 4, 3 * 2 ** 27 - 9], "rg": [2 ** 28 - 4, 3 * 2 ** 27 - 9]}
+    record("HdiTrace accepts the right-most of three windows whose widths agree to 7 digits", not _rejected(_tlc_trace("HdiTrace", [hq])))
+    record("HdiTrace reports the left-most of them (what a single-precision ranking returns)", _rejected(_tlc_trace("HdiTrace", [dict(hq, rg=[0, 2 ** 27 - 1])])))
+    # tied ranks: six rows, ranks 0,1,1,1,1,2, top half = row 5 and any two of rows 1..4
+    rt_ = {"n": 6, "burn": 0, "thin": 1, "f8": 4, "m": 0, "rank": [0, 1, 1, 1, 1, 2], "ids": [5, 1, 2], "pids": [5, 1, 2], "ndim": 2}
+    record("ReadoutTrace accepts one tie-break of a top half with tied log-probabilities", not _rejected(_tlc_trace("ReadoutTrace", [rt_])))
+    record("ReadoutTrace accepts another tie-break of it", not _rejected(_tlc_trace("ReadoutTrace", [dict(rt_, ids=[3, 5, 4], pids=[3, 5, 4])])))
+    record("ReadoutTrace reports the whole group of tied rows returned for the top half", _rejected(_tlc_trace("ReadoutTrace", [dict(rt_, ids=[5, 1, 2, 3, 4], pids=[5, 1, 2, 3, 4])])))
+    record("ReadoutTrace reports a kept row that a dropped row outranks", _rejected(_tlc_trace("ReadoutTrace", [dict(rt_, ids=[0, 5, 1], pids=[0, 5, 1])])))
+    record("ReadoutTrace accepts a requested count served from the tied group", not _rejected(_tlc_trace("ReadoutTrace", [dict(rt_, m=2, ids=[4, 2], pids=[4, 2])])))
+    record("ReadoutTrace reports a requested count served with the least probable row", _rejected(_tlc_trace("ReadoutTrace", [dict(rt_, m=2, ids=[0, 5], pids=[0, 5])])))
     aq = [{"ev": "Init", "ys": [1, -2, 0], "n": 3, "gp_n": 3, "mu_max": 1, "caller_unchanged": True},
           {"ev": "Add", "y": 5, "n": 4, "gp_n": 4, "last_y": 5, "last_x_ok": True, "errs_aligned": True, "mu_max": 5, "caller_unchanged": True}]
     record("AcquireTrace accepts an add that updates data, model and incumbent", not _rejected(_tlc_trace("AcquireTrace", aq)))
